@@ -449,8 +449,17 @@ def r14(db, ctx):
     if agg:
         b = m(('agg', '_', (('k', 0), ('call~', 'Ord::min', ('$a', '$b')))), agg.get('indices'))
         if b is not None:
-            sides = [X.canon(b['$a']), X.canon(b['$b'])]
-            ok = any('max_index' in s_ for s_ in sides) and any('DenseMatrix::rows' in s_ and 'DenseMatrix::columns' in s_ for s_ in sides)
+            def capacity(e_):
+                # rows * columns of the score matrix (columns() is the constant C)
+                e_ = norm(e_)
+                if not (e_[0] == 'bin' and e_[1] in ('Mul', 'MulUnchecked')):
+                    return False
+                for x_, y_ in ((e_[2], e_[3]), (e_[3], e_[2])):
+                    if x_[0] == 'call' and x_[1].endswith('DenseMatrix::rows') and ((y_[0] == 'call' and y_[1].endswith('DenseMatrix::columns')) or common.is_usize_const(y_, 'C')):
+                        return True
+                return False
+            is_max = lambda e_: norm(e_)[0] == 'fld' and norm(e_)[2] == 'max_index'
+            ok = (is_max(b['$a']) and capacity(b['$b'])) or (is_max(b['$b']) and capacity(b['$a']))
     (ctx.ok if ok else ctx.fail)('R1.4', f, 'scores::Iter covers 0..min(max_index, rows*columns)', *([[]] if ok else ['iteration range is not 0..min(max_index, rows*columns)']))
     ctx.floor('R1.4', n, 6, 'layout conversion sites')
 
@@ -519,6 +528,29 @@ def _count_pipeline_ok(db, f):
                 cells.append(C.canon(tup[2][0]))
                 guards_at(f, R, bi)
     e = common.return_expr_single_path_allow(f)
+    # results produced before the counting loops (`if len == 0 { return count }`) must be confined to the empty sequence, where the
+    # counters still hold what the loops would leave in them
+    loop_blocks = set().union(*[L_['body'] for L_ in f.loops()]) if f.loops() else set()
+    after_loops, stack_ = set(), [y_ for L_ in f.loops() for x_, y_ in L_['exits']]
+    while stack_:
+        b_ = stack_.pop()
+        if b_ not in after_loops:
+            after_loops.add(b_)
+            stack_.extend(f.succs(b_))
+    d0 = f.defs().get(0, [])
+    early = [d_ for d_ in d0 if d_[0] not in after_loops and d_[0] not in loop_blocks]
+    if early and loop_blocks:
+        for d_ in early:
+            rels_ = G.relations(f, R, d_[0])
+            is_len = lambda x_: common.is_call_on(x_, 'StripedSequence::len', ('p', 1)) or norm(x_) == ('fld', ('p', 1), 'length')
+            if not (G.holds(rels_, 'eq', is_len, G.is_const(0)) or G.holds(rels_, 'lt', is_len, G.is_const(1)) or G.holds(rels_, 'le', is_len, G.is_const(0)) or
+                    any(r_[0] == 'true' and common.is_call_on(r_[1], 'StripedSequence::is_empty', ('p', 1)) for r_ in rels_)):
+                return False
+        if e is None:
+            late = [d_ for d_ in d0 if d_ not in early]
+            vals = {repr(norm(R.call(d_[2]) if d_[1] == 'term' else R.rvalue(d_[2]))) for d_ in d0}
+            if len(late) == 1 and len(vals) == 1:
+                e = R.call(late[0][2]) if late[0][1] == 'term' else R.rvalue(late[0][2])
     if e is not None:
         red = RD.of_expr(C, norm(e))
         if red is not None and red['op'] == 'count':
@@ -651,7 +683,7 @@ def r17(db, ctx):
     C06.score_into_range(db, ctx, 'R1.7')
 
 
-def run(db, ctx):
+def kernel_rules(db, ctx):
     ctx.rule('R1.1', 'lane semantics of each scoring kernel: stored cell (r, c) = Σ_{j < rows(pssm)} T_j[seq(rows.start + r + j, c)]; accumulators start at the additive identity; '
                      'table / sequence / result pointers advance in lock-step by their own strides; every column stored exactly once')
     total = 0
@@ -659,6 +691,10 @@ def run(db, ctx):
         total += check_score_kernel(db, ctx, path, eo, et, op)
     r11_generic(db, ctx)
     ctx.floor('R1.1', total, 32 * 3 + 16, 'stored lanes verified across the SIMD scoring kernels')
+
+
+def run(db, ctx):
+    kernel_rules(db, ctx)
     r12(db, ctx)
     r13(db, ctx)
     r14(db, ctx)
@@ -668,5 +704,5 @@ def run(db, ctx):
     # every kernel reads rows r .. r + M - 1 of the striped matrix for result row r, the last M - 1 of them in the look-ahead rows: those must
     # be the right copies (cell (R + i, j) = cell (i, j + 1)), and rows() - wrap must stay the number of sequence rows (seeds C01-1, C01-3)
     from . import C04
-    common.shared_rule(db, ctx, C04.r45, 'R1.8', 'the look-ahead rows the kernels read past the last sequence row are what configure_wrap put there: '
-                       'R = rows - wrap before resizing, resize to rows + m - wrap, cell(R+i, j) := cell(i, j+1), last column default, wrap := m (shared with R4.5)', ['R4.5'])
+    common.shared_rule(db, ctx, C04.lookahead_rules, 'R1.8', 'the look-ahead rows the kernels read past the last sequence row are what configure_wrap put there: '
+                       'R = rows - wrap before resizing, resize to rows + m - wrap, cell(R+i, j) := cell(i, j+1), last column default, wrap := m; configure(motif) = configure_wrap(len - 1) for every non-empty motif (shared with R4.5 / R4.8)', ['R4.5', 'R4.8'])
